@@ -416,6 +416,7 @@ func (r *intraProxyStreamReceiver) sendPendingWatermarkToShard(targetShardID his
 
 	// Try to send to local shard first
 	if sendChan, exists := r.shardManager.GetRemoteSendChan(targetShardID); exists {
+		verifPoint("replay.afterLookup")
 		clonedResp := proto.Clone(msg.Resp).(*adminservice.StreamWorkflowReplicationMessagesResponse)
 		clonedMsg := RoutedMessage{
 			SourceShard: msg.SourceShard,
